@@ -128,7 +128,7 @@ def gen_channel_spec(rng, n, rate, marker, vmax):
             return rng.choice([0.0, 0.0, 1.0, 1.0, 0.5, -1.0])
         return rng.randrange(-int(vmax * grid), int(vmax * grid) + 1) / grid
 
-    if kind < 0.35:
+    if kind < 0.35 or n < 4:
         return ['const', volt()]
     if kind < 0.8 or marker:
         # table with breakpoints on the sample grid, at half samples and off the grid
@@ -328,20 +328,56 @@ def build_program(q, case):
         prog = pt.create_program()
         if prog is None:
             raise core.MachineryError('empty program from pulse template')
-        return prog
+        return prog, {}
     wfs = [build_wf(q, s, rate) for s in case['pool']]
-    return build_loop(q, case['tree'], wfs, [])
+    specs = {id(w): (json.dumps([s, rate], sort_keys=True), w) for w, s in zip(wfs, case['pool'])}
+    return build_loop(q, case['tree'], wfs, []), specs
 
 
 # ---------------------------------------------------------------------------------------------
 # observing the source program and the implementation
 # ---------------------------------------------------------------------------------------------
 
+class Pre(str):
+    """an already serialised s-expression fragment"""
+
+
+def ser(o):
+    if isinstance(o, Pre):
+        return str(o)
+    if isinstance(o, (list, tuple)):
+        return '(' + ' '.join(ser(x) for x in o) + ')'
+    return sx(o)
+
+
+def rle(xs):
+    """run-length atoms `m` / `m*k` understood by the driver"""
+    out = []
+    prev, k = None, 0
+    for x in xs:
+        if x == prev:
+            k += 1
+        else:
+            if k:
+                out.append(str(prev) if k == 1 else '%d*%d' % (prev, k))
+            prev, k = x, 1
+    if k:
+        out.append(str(prev) if k == 1 else '%d*%d' % (prev, k))
+    return out
+
+
+def ints(tag, xs):
+    return Pre('(' + ' '.join(([tag] if tag else []) + rle([int(x) for x in xs])) + ')')
+
+
+_SAMPLE_CACHE = {}
+
+
 def dyadic(arr):
     """exact encoding of a float array: ['d', E, m...] with value m * 2**E"""
     ratios = [float(v).as_integer_ratio() for v in arr]
     k = max((d.bit_length() - 1 for _, d in ratios), default=0)
-    return ['d', -k] + [n << (k - (d.bit_length() - 1)) for n, d in ratios]
+    return ['d', -k] + [Pre(a) for a in rle([n << (k - (d.bit_length() - 1)) for n, d in ratios])]
 
 
 def bits(arr):
@@ -351,8 +387,9 @@ def bits(arr):
 class Source:
     """the source program as the judge needs it: play tree over object ids + expected samples per object"""
 
-    def __init__(self, q, prog, case):
+    def __init__(self, q, prog, case, specs=None):
         self.q = q
+        specs = specs or {}
         np = q.np
         cfg = case['cfg']
         rate = q.TimeType.from_fraction(*case['rate'])
@@ -376,21 +413,39 @@ class Source:
                 continue
             if n % 16 or n < 192:
                 self.lengths_ok = False
-            times = np.arange(n, dtype=float) / float(rate)
+            times = None
             item = ['wf', i, n]
+            spec = specs.get(id(wf), (None,))[0]
             try:
                 for idx in (0, 1):
                     ch = cfg['channels'][idx]
                     if ch is None:
                         item.append(None)
-                    else:
-                        item.append(dyadic(TRAFOS[cfg['trafos'][idx]](wf.get_sampled(ch, times))))
+                        continue
+                    key = (spec, ch, cfg['trafos'][idx]) if spec else None
+                    val = _SAMPLE_CACHE.get(key) if key else None
+                    if val is None:
+                        if times is None:
+                            times = np.arange(n, dtype=float) / float(rate)
+                        val = Pre(ser(dyadic(TRAFOS[cfg['trafos'][idx]](wf.get_sampled(ch, times)))))
+                        if key and len(_SAMPLE_CACHE) < 4000:
+                            _SAMPLE_CACHE[key] = val
+                    item.append(val)
                 for idx in (0, 1):
                     mk = cfg['markers'][idx]
                     if mk is None:
                         item.append(None)
-                    else:
-                        item.append(bits(wf.get_sampled(mk, times[::2]) != 0))
+                        continue
+                    key = (spec, mk, 'marker') if spec else None
+                    val = _SAMPLE_CACHE.get(key) if key else None
+                    if val is None:
+                        if times is None:
+                            times = np.arange(n, dtype=float) / float(rate)
+                        # full rate; the judge keeps every second sample of the whole program
+                        val = Pre(bits(wf.get_sampled(mk, times) != 0))
+                        if key and len(_SAMPLE_CACHE) < 4000:
+                            _SAMPLE_CACHE[key] = val
+                    item.append(val)
             except Exception as exc:  # noqa  (sampling the source failed: not a C16 matter)
                 self.sample_error = core.classify_exception(exc)
                 item = None
@@ -488,7 +543,7 @@ def run_impl(q, prog, case):
     except Exception as exc:  # noqa
         return 'error', classify_impl_error(exc)
     segments, _lengths = tp.get_sampled_segments()
-    segs = [[int(w) for w in s.get_as_binary()] for s in segments]
+    segs = [ints('', s.get_as_binary()) for s in segments]
     seqtabs = [[[int(e.repetition_count), int(e.element_id), int(e.jump_flag)] for (e, _v) in tab]
                for tab in tp.get_sequencer_tables()]
     adv = [[int(r), int(n), int(j)] for (r, n, j) in tp.get_advanced_sequencer_table()]
@@ -542,42 +597,53 @@ class Batch:
         for case in self.items:
             cfg = case['cfg']
             try:
-                prog = build_program(q, case)
+                prog, specs = build_program(q, case)
             except core.MachineryError:
                 raise
             except Exception as exc:  # noqa  (building the *source* failed: nothing to compile)
                 ctx.count(self.label + ':source-build-failed:' + type(exc).__name__)
                 continue
-            src = Source(q, prog, case)
-            if src.sample_error is not None and src.integral and src.lengths_ok:
+            src = Source(q, prog, case, specs)
+            tsrc = src                      # the program handed to TaborProgram (differs after make_compatible)
+            if case.get('compat'):
+                target = prog.copy_tree_structure()
+                try:
+                    q.make_compatible(target, 192, 16, q.TimeType.from_fraction(*case['rate']))
+                except ValueError:
+                    ctx.count(self.label + ':skipped:make_compatible-rejects')
+                    continue
+                tsrc = Source(q, target, case)
+                prog = target
+            if src.sample_error is not None and tsrc.integral and tsrc.lengths_ok:
                 ctx.count(self.label + ':source-sampling-failed:' + src.sample_error)
                 continue
             status, impl = run_impl(q, prog, case)
             st, mode, vol = staged_program(q, prog, cfg['mode'])
             try:
-                staged = staged_sx(q, st, mode, vol, src._eq_id)
+                staged = staged_sx(q, st, mode, vol, tsrc._eq_id)
             except Exception as exc:  # noqa
-                staged = 'none'
-                ctx.count(self.label + ':staging-failed:' + type(exc).__name__)
+                # flatten_and_balance itself failed (C06/C13 territory, e.g. PF-07/PF-08: merging two volatile
+                # repetition counts raises): there is no program for the Tabor back end to compile
+                ctx.count(self.label + ':skipped:flatten-failed:' + type(exc).__name__)
+                if status == 'ok':
+                    raise core.MachineryError('flatten_and_balance failed in the harness but TaborProgram succeeded')
+                continue
             lim = ['limits', cfg['limits'][0], cfg['limits'][1]]
-            mline = sx(['c16', 'model', cfg['mode'], lim, ['src', src.tree_eq], staged])
-            entry = {'case': case, 'src': src, 'status': status, 'impl': impl, 'model_at': len(lines),
+            mline = ser(['c16', 'model', cfg['mode'], lim, ['src', tsrc.tree_eq], staged])
+            entry = {'case': case, 'src': tsrc, 'status': status, 'impl': impl, 'model_at': len(lines),
                      'judge_at': None, 'range_at': None, 'mline': mline}
             lines.append(mline)
             complete = all(w is not None for w in src.wf_lines)
             cfgsx = ['cfg'] + [F(cfg['amps'][0]), F(cfg['offs'][0]), F(cfg['amps'][1]), F(cfg['offs'][1])]
             if status == 'ok' and complete:
                 entry['judge_at'] = len(lines)
-                lines.append(sx(['c16', 'judge', impl['mode'], lim, ['src', src.tree_obj], cfgsx,
+                lines.append(ser(['c16', 'judge', impl['mode'], lim, ['src', src.tree_obj], cfgsx,
                                  ['wfs'] + src.wf_lines, ['segs'] + impl['segs'],
                                  ['seqtabs'] + impl['seqtabs'], ['adv'] + impl['adv']]))
             elif complete:
                 # are all voltages inside the output range? (judge request with nothing to replay)
                 entry['range_at'] = len(lines)
-                lines.append(sx(['c16', 'inrange', cfgsx,
-                                 ['wfs'] + [w[:3] + [w[3] and w[3][:2] + [min(w[3][2:]), max(w[3][2:])],
-                                                     w[4] and w[4][:2] + [min(w[4][2:]), max(w[4][2:])],
-                                                     None, None] for w in src.wf_lines]]))
+                lines.append(ser(['c16', 'inrange', cfgsx, ['wfs'] + [w[:5] + [None, None] for w in src.wf_lines]]))
             meta.append(entry)
         answers = core.Lean.run(lines)
         for e in meta:
@@ -631,7 +697,7 @@ class Batch:
             r = answers[e['range_at']]
             if r[0] == 'err':
                 raise core.MachineryError('inrange request rejected: %r' % (r,))
-            if r[1] == 'false':
+            if r[1] == 'false' or (r[1] == 'boundary' and impl == 'value_error'):
                 expect = 'error:value_error'       # some voltage lies outside the output range
         ctx.count(label + ':outcome:' + got)
         ctx.count(label + ':mode:' + (impl['mode'] if status == 'ok' else cfg['mode']))
@@ -694,12 +760,55 @@ def random_case(rng, family):
     return case
 
 
+def compat_case(rng):
+    """a program some of whose pieces are too short / off the 16-sample quantum but add up to compatible
+    pieces; it goes through `make_compatible` first, as in the driver's `upload`"""
+    rate = list(rng.choice([(1, 1), (2, 1), (1, 2), (4, 1), (1, 4)]))      # exact float sample times
+    q = rate_quantum(rate)
+    pool = gen_pool(rng, rate, 0.3, rng.randrange(1, 4))
+    units = [[i] for i in range(len(pool))]
+    for _ in range(rng.randrange(1, 3)):
+        total = q * rng.randrange((192 + q - 1) // q, (192 + q - 1) // q + 6)
+        step = max(1, rate[0])                                             # whole time units
+        cut = step * rng.randrange(1, total // step)
+        pair = []
+        for n in (cut, total - cut):
+            spec = {'n': n, 'ch': {}}
+            for ch in VOLT:
+                spec['ch'][ch] = gen_channel_spec(rng, n, rate, False, 0.3)
+            for ch in MARK:
+                spec['ch'][ch] = gen_channel_spec(rng, n, rate, True, 0.3)
+            pool.append(spec)
+            pair.append(len(pool) - 1)
+        units.append(pair)
+
+    def expand(t):
+        if t[0] == 'w':
+            u = units[t[2]]
+            if len(u) == 1:
+                return ['w', t[1], u[0], False]
+            return ['l', t[1], False, [['w', 1, u[0], False], ['w', 1, u[1], False]]]
+        return ['l', t[1], False, [expand(c) for c in t[3]]]
+
+    for _ in range(20):
+        tree = gen_tree(rng, rng.choice([1, 2, 2, 3]), len(units), 0)
+        if tree_play_len(tree) <= 200:
+            break
+    else:
+        tree = ['l', 1, False, [['w', 2, len(units) - 1, False]]]
+    cfg = gen_config(rng)
+    return {'rate': rate, 'pool': pool, 'cfg': cfg, 'family': 'compat', 'tree': expand(tree), 'pt': None, 'compat': True}
+
+
 SMALL_WF = [
     {'n': 192, 'ch': {'A': ['const', 0.25], 'B': ['const', -0.125], 'M': ['const', 1.0], 'N': ['const', 0.0]}},
     {'n': 192, 'ch': {'A': ['const', 0.25], 'B': ['const', 0.125], 'M': ['const', 0.0], 'N': ['const', 1.0]}},
+    # same channel A words (codes and marker bits) as waveform 0, different channel B
+    {'n': 192, 'ch': {'A': ['const', 0.25], 'B': ['const', 0.1875], 'M': ['const', 1.0], 'N': ['const', 0.0]}},
 ]
 ENTRY_LISTS = [[(1, 0)], [(2, 0)], [(3, 1)], [(1, 0), (1, 1)], [(1, 0), (1, 0)], [(2, 0), (1, 1)], [(1, 1), (2, 0)],
-               [(1, 0), (1, 1), (1, 0)], [(1, 0), (1, 1), (2, 0)], [(5, 1)], [(1, 0), (1, 1), (1, 0), (1, 1)]]
+               [(1, 0), (1, 1), (1, 0)], [(1, 0), (1, 1), (2, 0)], [(5, 1)], [(1, 0), (1, 1), (1, 0), (1, 1)],
+               [(1, 0), (1, 2)], [(2, 2)]]
 
 
 def exhaustive_cases(max_tables, limits, counts):
@@ -720,7 +829,7 @@ def run(ctx: core.Ctx):
                 'channel/marker assignments incl. None, 5 amplitudes x 5 offsets x 7 voltage transformations, 12 '
                 '(min_seq_len, max_seq_len) pairs, modes auto/single/advanced; volatile repetition counts; a '
                 'malformed stream (short / non-quantum / fractional lengths, out-of-range voltages); plus all '
-                'depth-2 programs of <= k tables over 11 entry lists x counts x small limits. Non-trivial = the '
+                'depth-2 programs of <= k tables over 13 entry lists x counts x small limits. Non-trivial = the '
                 'device program was replayed and plays more than one segment, or the program was rejected; '
                 'distinct by canonical model request line')
     ctx.assumptions = [
@@ -740,32 +849,25 @@ def run(ctx: core.Ctx):
     # ---- exhaustive small scope
     if ctx.quick:
         space = list(exhaustive_cases(2, [(2, 3), (3, 4), (2, 4), (3, 5), (4, 6)], (1, 2, 3)))
-        ctx.exhaustive_spaces.append('all depth-2 programs with <= 2 tables (count in 1..3) over 11 entry lists, '
+        ctx.exhaustive_spaces.append('all depth-2 programs with <= 2 tables (count in 1..3) over 13 entry lists, '
                                      '5 limit pairs: %d cases' % len(space))
     else:
         space = list(exhaustive_cases(2, [(2, 3), (3, 4), (2, 4), (3, 5), (4, 6), (1, 2), (3, 3), (5, 12)], (1, 2, 3, 4)))
         space += list(exhaustive_cases(3, [(3, 4), (2, 4), (3, 5)], (1, 2)))
         ctx.exhaustive_spaces.append('all depth-2 programs with <= 2 tables (count 1..4) x 8 limit pairs and <= 3 '
-                                     'tables (count 1..2) x 3 limit pairs over 11 entry lists: %d cases' % len(space))
-    for chunk in _chunks(space, 3000):
-        b = Batch(ctx, 'exh')
-        for c in chunk:
-            b.add(c)
-        b.run()
+                                     'tables (count 1..2) x 3 limit pairs over 13 entry lists: %d cases' % len(space))
+    run_cases(ctx, 'exh', space, 3000 if ctx.quick else 1500)
     # ---- random structured cases
-    for family, nq, nt in (('tree', 220, 5000), ('pt', 60, 1500), ('volatile', 50, 1000), ('malformed', 50, 800)):
+    for family, nq, nt in (('tree', 300, 5000), ('pt', 80, 1500), ('volatile', 60, 1000), ('malformed', 60, 800),
+                           ('compat', 50, 800)):
         rng = ctx.fork(family)
-        cases = [random_case(rng, family) for _ in range(ctx.n(nq, nt))]
-        for chunk in _chunks(cases, 150):
-            b = Batch(ctx, family)
-            for c in chunk:
-                b.add(c)
-            b.run()
+        cases = [compat_case(rng) if family == 'compat' else random_case(rng, family) for _ in range(ctx.n(nq, nt))]
+        run_cases(ctx, family, cases, 150 if ctx.quick else 100)
     _known_findings(ctx)
     # ---- failing-input search after a disagreement: more of everything, every case judged on the implementation
     if ctx.drifts and not ctx.violations:
         rng = ctx.fork('search')
-        for _ in range(4):
+        for _ in range(2):
             b = Batch(ctx, 'search')
             for _ in range(150):
                 b.add(random_case(rng, rng.choice(['tree', 'tree', 'volatile', 'pt'])))
@@ -777,13 +879,166 @@ def run(ctx: core.Ctx):
     ctx.extra['structural_agreement'] = '%d/%d accepted programs have the model\'s table layout' % (ok, total)
 
 
+class _CollectCtx(core.Ctx):
+    """run context of a worker process: nothing is printed or written, everything is handed back"""
+
+    def __init__(self, pid, tier, seed):
+        super().__init__(pid, tier, seed)
+        self.collected = []
+        self.known = []
+
+    def violation(self, what, replay, found_input=True):
+        self.collected.append((what, replay))
+
+    def known_finding(self, finding_id, what):
+        self.known.append((finding_id, what))
+
+
+def _work(args):
+    label, cases, tier, seed = args
+    sub = _CollectCtx('C16', tier, seed)
+    b = Batch(sub, label)
+    for c in cases:
+        b.add(c)
+    b.run()
+    return {'counters': sub.counters, 'distinct': sub.distinct, 'samples': sub.samples, 'evaluations': sub.evaluations,
+            'violations': sub.collected, 'known': sub.known, 'drifts': sub.drifts, 'disagreements': sub.disagreements,
+            'extra': sub.extra}
+
+
+def run_cases(ctx, label, cases, chunk):
+    """serial in the quick tier, 16 worker processes in the thorough tier"""
+    parts = [(label, c, ctx.tier, ctx.seed) for c in _chunks(cases, chunk)]
+    if ctx.quick or len(parts) < 2:
+        for _label, c, _t, _s in parts:
+            b = Batch(ctx, label)
+            for x in c:
+                b.add(x)
+            b.run()
+        return
+    import multiprocessing
+    with multiprocessing.get_context('fork').Pool(min(16, len(parts))) as pool:
+        for res in pool.imap_unordered(_work, parts):
+            for k, v in res['counters'].items():
+                ctx.count(k, v)
+            ctx.distinct |= res['distinct']
+            ctx.evaluations += res['evaluations']
+            ctx.disagreements += res['disagreements']
+            ctx.drifts.extend(res['drifts'])
+            for smp in res['samples']:
+                if len(ctx.samples) < 12:
+                    ctx.samples.append(smp)
+            for what, rep in res['violations']:
+                ctx.violation(what, rep)
+            for fid, what in res['known']:
+                ctx.known_finding(fid, what)
+            for k, v in res['extra'].items():
+                if isinstance(v, list):
+                    ctx.extra.setdefault(k, [])
+                    ctx.extra[k] = (ctx.extra[k] + v)[:5]
+
+
 def _chunks(xs, n):
     for i in range(0, len(xs), n):
         yield xs[i:i + n]
 
 
+def _check_packing(ctx, n):
+    """QP.C16.pack / unpack against TaborSegment.from_sampled(...).get_as_binary() and the read-back properties"""
+    q = _q()
+    np = q.np
+    rng = ctx.fork('packing')
+    lines, impl = [], []
+    for _ in range(n):
+        nq = rng.choice([1, 2, 3, 12, 13])
+        kind = rng.random()
+
+        def code():
+            if kind < 0.2:
+                return rng.choice([0, 1, 8191, 8192, 16382, 16383])
+            return rng.randrange(1 << 14)
+        a = [code() for _ in range(16 * nq)]
+        b = [code() for _ in range(16 * nq)]
+        ma = [rng.random() < 0.5 for _ in range(8 * nq)]
+        mb = [rng.random() < 0.5 for _ in range(8 * nq)]
+        seg = q.tb.TaborSegment.from_sampled(np.array(a, dtype=np.uint16), np.array(b, dtype=np.uint16),
+                                             np.array(ma), np.array(mb))
+        raw = [int(w) for w in seg.get_as_binary()]
+        back = q.tb.TaborSegment.from_binary_segment(np.array(raw, dtype=np.uint16))
+        lines.append(sx(['c16', 'pack', ['a'] + a, ['b'] + b, bits(ma), bits(mb)]))
+        impl.append(['ok'] + [str(w) for w in raw])
+        lines.append(ser(['c16', 'unpack', ints('', raw)]))
+        impl.append(['ok', [str(int(x)) for x in back.ch_a], [str(int(x)) for x in back.ch_b],
+                     bits(back.marker_a), bits(back.marker_b)])
+        if [int(x) for x in back.ch_a] != a or [int(x) for x in back.ch_b] != b or \
+                [bool(x) for x in back.marker_a] != ma or [bool(x) for x in back.marker_b] != mb:
+            ctx.violation('TaborSegment does not read back what was packed', {'kind': 'packing', 'a': a, 'b': b,
+                                                                              'ma': bits(ma), 'mb': bits(mb)})
+    for line, want, got in zip(lines, impl, core.Lean.run(lines)):
+        ctx.case(line[:200], nontrivial=True)
+        ctx.count('packing:' + line.split()[1])
+        if want != got:
+            ctx.drift('TaborSegment binary layout vs QP.C16.pack/unpack', line[:400], str(want)[:300], str(got)[:300])
+
+
+def _check_codes(ctx, n):
+    """QP.C16.code14 against voltage_to_uint16(..., resolution=14): equal codes except where the exact value is
+    within 2^-26 code units of a half-integer (then a neighbouring code)"""
+    q = _q()
+    np = q.np
+    from qupulse.hardware.util import voltage_to_uint16
+    rng = ctx.fork('codes')
+    lines, impl, metas = [], [], []
+    for _ in range(n):
+        amp = rng.choice([0.5, 1.0, 2.0, 0.75, 1.3, 0.1, 3.7])
+        off = rng.choice([0.0, 0.0625, -0.125, 0.03, 1.0])
+        step = 2 * amp / 16383
+        vs = []
+        for _ in range(24):
+            r = rng.random()
+            k = rng.randrange(16384)
+            if r < 0.3:
+                vs.append(off - amp + k * step)                       # code centres
+            elif r < 0.6:
+                vs.append(off - amp + (k + 0.5) * step)               # half steps (never exact in floats)
+            elif r < 0.7:
+                vs.append(rng.choice([off - amp, off + amp, off]))
+            else:
+                vs.append(off + rng.uniform(-amp, amp))
+        if rng.random() < 0.1:
+            vs[rng.randrange(len(vs))] = off + amp * rng.choice([1.0000001, -1.0000001, 1.5, -2.0])
+        arr = np.array(vs, dtype=float)
+        try:
+            got = ['ok', [int(c) for c in voltage_to_uint16(arr, amp, off, 14)]]
+        except ValueError:
+            got = ['error', 'value_error']
+        lines.append(ser(['c16', 'code14', F(amp), F(off), dyadic(arr)]))
+        impl.append(got)
+    for line, got, ans in zip(lines, impl, core.Lean.run(lines)):
+        ctx.case(line[:200], nontrivial=True)
+        ctx.count('codes:' + got[0])
+        if got[0] == 'error' or ans[0] == 'error':
+            if got[0] != ans[0]:
+                if ans[0] == 'error' and ans[2] == 'true':
+                    # every sample is within 2^-40 (relative) of the range end: the float range check may round
+                    ctx.count('codes:range-end-rounding')
+                else:
+                    ctx.drift('voltage_to_uint16 range check vs QP.C16.code14', line[:400], str(got), str(ans))
+            continue
+        want = [int(c) for c in ans[1]]
+        near = [f == 'true' for f in ans[2]]
+        for i, (g, w, nh) in enumerate(zip(got[1], want, near)):
+            if g != w and not (nh and abs(g - w) == 1):
+                ctx.violation('voltage_to_uint16 gives code %d, the exact round-half-even code is %d' % (g, w),
+                              {'kind': 'code14', 'line': line, 'index': i, 'impl': g, 'spec': w})
+                break
+            if g != w:
+                ctx.count('codes:neighbour-at-half-step')
+
+
 def _known_findings(ctx):
-    pass
+    _check_packing(ctx, ctx.n(150, 3000))
+    _check_codes(ctx, ctx.n(300, 6000))
 
 
 def replay(ctx: core.Ctx, rec: dict, from_corpus: bool = False) -> bool:
